@@ -16,7 +16,7 @@ from ..core import rule, AnalysisError
 from ..engine import rx, flow, cfg as cfgmod
 from ..engine import pattern as P
 from ..engine.facts import dotted, const, src, walk_func, str_value, enclosing_stmt, ancestors
-from .common import calls, in_try_handling, contains, stmt_nodes
+from .common import calls, in_try_handling, contains, stmt_nodes, pn
 
 
 def _precedence(e):
@@ -39,12 +39,20 @@ def precedence(ctx):
     db = ctx.db
     fn = db.func("lexer.Lexer.decode_raw_stream")
     n = 0
+    known = pn(fn, 3)
+    mvars = {s.targets[0].id for s in walk_func(fn) if isinstance(s, ast.Assign) and isinstance(s.targets[0], ast.Name) and isinstance(s.value, ast.Call) and dotted(s.value.func) == "self._coding_re.match"}
+    strifs = [i for i in fn.body if isinstance(i, ast.If) and P.has(i.test, "isinstance(%s, str)" % pn(fn, 1))]
     for s in walk_func(fn):
-        if isinstance(s, ast.Assign) and isinstance(s.targets[0], ast.Name) and s.targets[0].id in ("encoding", "parsed_encoding") and not isinstance(s.value, ast.Constant):
+        if isinstance(s, ast.Assign) and isinstance(s.targets[0], ast.Name) and not isinstance(s.value, ast.Constant):
             ch = _precedence(s.value)
+            if len(ch) < 2 and not (known in ch or any(c_.endswith(".group(1)") for c_ in ch)):
+                continue
+            if s.targets[0].id == pn(fn, 1):
+                continue
             n += 1
-            ok = len(ch) == 3 and ch[0].startswith("m.group(1)") and ch[1] == "known_encoding" and ch[2].strip("'\"").lower().replace("_", "-") in ("utf-8", "utf8")
-            ctx.check(ok, "%s@%s" % (s.targets[0].id, "str" if s.targets[0].id == "encoding" else "bytes"), db.where(s), "encoding chosen as %s: expected [coding comment, input_encoding, 'utf-8']" % ch, "%s" % ch)
+            ok = len(ch) == 3 and any(ch[0] == "%s.group(1)" % m_ for m_ in mvars) and ch[1] == known and ch[2].strip("'\"").lower().replace("_", "-") in ("utf-8", "utf8")
+            branch = "str" if any(contains(i, s) and not any(contains(o, s) for o in i.orelse) for i in strifs) else "bytes"
+            ctx.check(ok, "selection@%s" % branch, db.where(s), "encoding chosen as %s: expected [coding comment, input_encoding, 'utf-8']" % ch, "%s" % ch)
     ctx.require(n >= 2, "decode_raw_stream: encoding selection on both branches not found (%d)" % n)
     # known_encoding is the lexer's input_encoding
     ps = db.func("lexer.Lexer.parse")
@@ -96,7 +104,7 @@ def decode_wrap(ctx):
     """undecodable input and a BOM contradicted by the comment raise CompileException; the BOM is removed exactly; the coding comment is skipped as content"""
     db = ctx.db
     fn = db.func("lexer.Lexer.decode_raw_stream")
-    dec = [c for c in walk_func(fn) if isinstance(c, ast.Call) and isinstance(c.func, ast.Attribute) and c.func.attr == "decode" and src(c.func.value) == "text" and c.args and src(c.args[0]) in ("parsed_encoding", "encoding")]
+    dec = [c for c in walk_func(fn) if isinstance(c, ast.Call) and isinstance(c.func, ast.Attribute) and c.func.attr == "decode" and src(c.func.value) == pn(fn, 1) and len(c.args) == 1 and isinstance(c.args[0], ast.Name)]
     ctx.require(dec, "decode_raw_stream never decodes with the chosen encoding")
     for d in dec:
         ctx.check(in_try_handling(d, "UnicodeDecodeError", "UnicodeError", "ValueError", "Exception"), "decode-in-try", db.where(d), "text.decode(...) is not inside a try that handles UnicodeDecodeError: undecodable input escapes as a raw UnicodeDecodeError", "inside try/except UnicodeDecodeError")
@@ -108,9 +116,10 @@ def decode_wrap(ctx):
     bom_if = [i for i in walk_func(fn) if isinstance(i, ast.If) and "startswith(codecs.BOM_UTF8)" in src(i.test)]
     ctx.require(bom_if, "BOM branch not found")
     b = bom_if[0]
-    sl = [s for s in b.body if isinstance(s, ast.Assign) and src(s.targets[0]) == "text"]
-    ctx.check(bool(sl) and src(sl[0].value).replace(" ", "") == "text[len(codecs.BOM_UTF8):]", "bom-removed-exactly", db.where(b), "the BOM is not removed by text[len(codecs.BOM_UTF8):]", "text continues right after the mark")
-    pe = [s for s in b.body if isinstance(s, ast.Assign) and src(s.targets[0]) == "parsed_encoding"]
+    sl = [s for s in b.body if isinstance(s, ast.Assign) and src(s.targets[0]) == pn(fn, 1)]
+    ctx.check(bool(sl) and src(sl[0].value).replace(" ", "") == "%s[len(codecs.BOM_UTF8):]" % pn(fn, 1), "bom-removed-exactly", db.where(b), "the BOM is not removed by text[len(codecs.BOM_UTF8):]", "text continues right after the mark")
+    encv = {c.args[0].id for c in dec}
+    pe = [s for s in b.body if isinstance(s, ast.Assign) and src(s.targets[0]) in encv]
     ctx.check(bool(pe) and const(pe[0].value) in ("utf-8", "utf8", "UTF-8"), "bom-means-utf8", db.where(b), "a BOM does not select UTF-8", "BOM selects utf-8")
     rs = [r for r in ast.walk(b) if isinstance(r, ast.Raise) and isinstance(r.exc, ast.Call)]
     ctx.check(bool(rs) and all(dotted(r.exc.func).endswith("CompileException") for r in rs), "bom-conflict-raises", db.where(b), "a BOM contradicted by the coding comment does not raise CompileException", "conflict raises CompileException")
